@@ -31,6 +31,11 @@ func findOutputDepsReg(ins *instruction, regs keyInsMap) {
 
 		// We are certain that i != ins.
 		addDep(ins, dep)
+
+		// The instruction becomes the closest later writer of r for all
+		// instructions before it. This way all writes of one register
+		// form a chain and none of them can be moved over another one.
+		regs[r] = ins
 	}
 }
 
